@@ -109,6 +109,8 @@ package http
 
 //@ func (*Server).routeFile
 //@   before call os.OpenRoot assert rejects-on-sanitise-error: lastret(sanitizePathSegment, 1) == nil && lastret(sanitizeRelativePath, 1) == nil && called(isSubpath) && lastret(isSubpath, 0) && lastarg(isSubpath, 1) == arg0 && !called(net/http.ResponseWriter.WriteHeader)
+//@   before call sanitizePathSegment assert serves-the-directory-of-the-authorised-source: arg0 == getSourceName(r)
+//@   before call os.OpenRoot assert serves-the-directory-of-the-authorised-source: ncalls(sanitizePathSegment) == 1 && source == lastret(sanitizePathSegment, 0) && lastarg(path/filepath.Join, 0)[1] == source
 //@   before call (*os.Root).Stat assert fs-only-through-root: arg0 == lastret(os.OpenRoot, 0) && arg1 == rootName && rootName == lastret(rootRelativePath, 0) && lastarg(rootRelativePath, 0) == lastret(sanitizeRelativePath, 0)
 //@   before call (*os.Root).Open assert fs-only-through-root: arg0 == lastret(os.OpenRoot, 0) && arg1 == rootName
 //@   before call (*os.Root).Remove assert fs-only-through-root: arg0 == lastret(os.OpenRoot, 0) && arg1 == rootName && found && !lastret(fs.FileInfo.IsDir, 0)
